@@ -86,6 +86,8 @@ type Data struct {
 	MaxSchema int          `json:"max_schema"` // maximal number of schema elements
 	Parts     int          `json:"parts"`      // 2, or 3 = splits into 2 and into 3 parts
 	Swap      bool         `json:"swap,omitempty"`
+	Chunk     int          `json:"chunk,omitempty"`  // this case covers the schemas i with i % Chunks == Chunk
+	Chunks    int          `json:"chunks,omitempty"` // 0 or 1 = all schemas
 	Pin       *Pin         `json:"pin,omitempty"`
 	Text      []string     `json:"text,omitempty"` // informational: the source text(s)
 }
@@ -871,7 +873,10 @@ func runCase(d Data, kind string, content absconf.Body, real Real) (*runner, []s
 	if d.Parts == 3 {
 		pl = []int{2, 3}
 	}
-	for _, es := range schemas(d.Names, d.MaxSchema, d.Swap) {
+	for i, es := range schemas(d.Names, d.MaxSchema, d.Swap) {
+		if d.Chunks > 1 && i%d.Chunks != d.Chunk {
+			continue
+		}
 		splits += r.schema(es, pl, nil)
 	}
 	return r, texts, splits, nil
@@ -952,7 +957,7 @@ func judge(c engine.Case) engine.Outcome {
 	if len(d.Content) == 0 {
 		return engine.Pass(fmt.Sprintf("%s|empty|%d", d.Real, r.sig.n))
 	}
-	return engine.Pass(fmt.Sprintf("%s|%s|%x|%d/%d", d.Real, strings.ReplaceAll(absconf.Native(d.Content), "\n", ";"), r.sig.h, r.sig.nerrs, r.sig.n))
+	return engine.Pass(fmt.Sprintf("%s|%s|%d|%x|%d/%d", d.Real, strings.ReplaceAll(absconf.Native(d.Content), "\n", ";"), d.Chunk, r.sig.h, r.sig.nerrs, r.sig.n))
 }
 
 // ---------------------------------------------------------------- generator
@@ -1136,8 +1141,15 @@ func gen(tier string, emit func(engine.Case) bool) {
 				// merges of three files: the smaller schema space
 				d.Names, d.MaxSchema, d.Swap = "abxy", 3, false
 			}
-			if !emit(engine.Case{ID: fmt.Sprintf("%d/%04d/%02d-%s", len(b), n, ri, r.Kind), Data: d}) {
-				return false
+			chunks := 1
+			if thorough && d.MaxSchema > 3 {
+				chunks = 16 // keep thorough cases small (about 1500 splits each)
+			}
+			for ch := 0; ch < chunks; ch++ {
+				d.Chunk, d.Chunks = ch, chunks
+				if !emit(engine.Case{ID: fmt.Sprintf("%d/%04d/%02d-%s/%02d", len(b), n, ri, r.Kind, ch), Data: d}) {
+					return false
+				}
 			}
 		}
 		return true
@@ -1146,9 +1158,9 @@ func gen(tier string, emit func(engine.Case) bool) {
 
 // ---------------------------------------------------------------- shrink
 
-func shrink(c engine.Case) []engine.Case {
+func shrink(c engine.Case) (out []engine.Case) {
+	defer func() { recover() }() // never let a panic of the code under test escape from shrinking
 	d := c.Data.(Data)
-	var out []engine.Case
 	if d.Pin == nil {
 		// pin the schema and split of the failure the case reports
 		r, _, _, err := runCase(d, kindOf(d.Real), d.Content, d.Real)
@@ -1174,7 +1186,9 @@ func shrink(c engine.Case) []engine.Case {
 		nd := d
 		p := *d.Pin
 		p.Schema = append(append([]Elem(nil), d.Pin.Schema[:i]...), d.Pin.Schema[i+1:]...)
-		p.Assign = append(append([]int(nil), d.Pin.Assign[:i]...), d.Pin.Assign[i+1:]...)
+		if len(d.Pin.Assign) == len(d.Pin.Schema) {
+			p.Assign = append(append([]int(nil), d.Pin.Assign[:i]...), d.Pin.Assign[i+1:]...)
+		}
 		nd.Pin = &p
 		out = append(out, engine.Case{ID: c.ID + "s", Data: nd})
 	}
